@@ -118,6 +118,12 @@ class OrderAnalysis:
         return self.obs
 
 
+def _set_algebra_call(call) -> bool:
+    """`set.intersection(..)` / `frozenset.union(..)` called on the class: the result does not depend on the
+    order of the operands"""
+    return isinstance(call, ast.Call) and isinstance(call.func, ast.Attribute) and call.func.attr in ("intersection", "union") and isinstance(call.func.value, ast.Name) and call.func.value.id in ("set", "frozenset")
+
+
 class FnOrder:
     def __init__(self, oa: OrderAnalysis, fn: FunctionInfo) -> None:
         self.oa = oa
@@ -379,13 +385,16 @@ class FnOrder:
         elif isinstance(node, ast.Starred) and isinstance(node.ctx, ast.Load):
             r = self.set_or_tainted(node.value)
             par = A.parent(node)
-            if r and not (isinstance(par, ast.Call) and isinstance(par.func, ast.Name) and par.func.id in INSENSITIVE):
+            if r and not (isinstance(par, ast.Call) and isinstance(par.func, ast.Name) and par.func.id in INSENSITIVE) and not _set_algebra_call(par):
                 if not isinstance(par, (ast.List, ast.Tuple)):
                     self._ob("violation", node, "star-unpack", f"*{A.unparse(node.value)[:40]} spreads a hash-dependent order ({r})")
 
     def _consumer_insensitive(self, node: ast.AST) -> Optional[str]:
         """the value of node is consumed by an order-insensitive function / operator"""
         par = A.parent(node)
+        if isinstance(par, ast.Starred) and _set_algebra_call(A.parent(par)):
+            # set.intersection(*[..]) / set.union(*[..]): commutative and associative over the operands
+            return "set." + A.parent(par).func.attr  # type: ignore[union-attr]
         if isinstance(par, ast.Call) and node in par.args:
             if isinstance(par.func, ast.Name) and par.func.id in INSENSITIVE:
                 if par.func.id == "sorted":
@@ -412,6 +421,9 @@ class FnOrder:
             return
         # otherwise the result is an order-tainted container: followed through its uses
         par = A.parent(comp)
+        while isinstance(par, ast.BinOp) and isinstance(par.op, ast.BitOr) and isinstance(comp, ast.DictComp):
+            # {..} | {..}: the merged dict inherits the insertion order of its operands
+            par = A.parent(par)
         if isinstance(par, ast.Assign) and all(isinstance(t, ast.Name) for t in par.targets):
             names = [t.id for t in par.targets]
             self._ob("ok", comp, what, f"result of iterating {A.unparse(g.iter)[:40]} is bound to {names}: order-tainted, every use is checked", nontrivial=True)
